@@ -24,6 +24,7 @@ ASSUMPTIONS = [
     "small scope: <=3-4 rows per source on a 5-6 point grid (unit 600 ns)",
     "threaded runs of the input/config enumeration use one fixed (default) schedule; schedules are enumerated only for the slice listed in coverage.counters (delay bound 1-2)",
     "allow_multiprocess / real OS processes are not exercised",
+    "mailbox capacity 1 (thorough only) is applied to single-input graphs only: the property holds 'with capacity above the largest plugin lag', and a two-input plugin lags one chunk on one input (diamond / multi_merge with a trailing zero-duration chunk come to rest at capacity 1; found by the thorough tier)",
 ]
 BOUNDS = {"quick": "rows<=3 grid 0..4, 8 config cells, all stored subsets (<=8); schedule slice: 3 graphs, delay bound 1", "thorough": "rows<=3 grid 0..4, 14 config cells x all stored subsets with six rotating (cell, subset) combinations per input; schedule slice: all graphs bound 1, chain2/multi bound 2"}
 
@@ -293,6 +294,11 @@ def run_job(job):
             ncomb = 1 if tier == "quick" else 6
             combos = [(cells[(i + k + seed) % len(cells)], subs[(i // len(cells) + 3 * k + seed) % len(subs)]) for k in range(ncomb)]
             for cell, stored in combos:
+                if cell[3] == 1 and any(len(n["deps"]) >= 2 for n in spec):
+                    # the property is stated for "capacity above the largest plugin lag": a plugin with two inputs lags one
+                    # chunk behind on one of them (e.g. while draining a trailing zero-duration chunk), so capacity 1 is
+                    # outside the stated domain for diamond / multi_merge / twokind (it is kept for the single-input graphs)
+                    continue
                 res.evals += 1
                 nrows = sum(len(s["iv"]) for s in sources.values())
                 nch = max(len(s["bounds"]) - 1 for s in sources.values())
